@@ -99,6 +99,12 @@ def gen_spec(rng, uid):
     return lead + spec + tail, fails
 
 
+# project directory names: braces that look like the backends' own template placeholders.  Names with whitespace,
+# quotes or '#' are NOT generated: the log paths appear unquoted in #SBATCH/#$/#BSUB lines and what happens then is
+# decided by each scheduler's own directive tokenizer, which the simulators can only guess (DESIGN section 5).
+PROJ_NAMES = ["proj", "proj", "proj", "batch-{a}", "{cohort}_{year}", "{memory}", "{std_out}", "p-{queue}.{cores}", "x{job_name}y"]
+
+
 def gen_case(rng, idx, tier):
     sched = rng.choice(["slurm", "slurm", "slurm", "sge", "lsf"])
     log_mode = rng.choice(["full", "full", "merged", "none"]) if sched == "slurm" else "full"
@@ -121,7 +127,7 @@ def gen_case(rng, idx, tier):
             if rng.random() < 0.12:
                 (topts if rng.random() < 0.5 else kopts)[u] = rng.choice([1, "x", None])
         targets.append({"name": "tgt%d" % i if rng.random() < 0.8 else "tgt.%d_x" % i, "wd_name": rng.choice(WD_NAMES), "spec": spec, "fails": fails, "uid": uid, "topts": topts, "kopts": kopts})
-    return {"sched": sched, "log_mode": log_mode, "wf_defaults": wf_defaults, "targets": targets, "clean_logs": rng.choice([True, True, False]), "accounting": rng.random() < 0.8}
+    return {"sched": sched, "log_mode": log_mode, "wf_defaults": wf_defaults, "targets": targets, "clean_logs": rng.choice([True, True, False]), "accounting": rng.random() < 0.8, "proj_name": rng.choice(PROJ_NAMES)}
 
 
 def pick(rng, sched, o):
@@ -225,7 +231,7 @@ def reference_run(spec, wd):
 def run_case(case):
     res = Result()
     sched = case["sched"]
-    with gen.Project() as proj:
+    with gen.Project(name=case.get("proj_name", "proj")) as proj:
         for t in case["targets"]:
             os.makedirs(os.path.join(proj.root, "wds", t["wd_name"]), exist_ok=True)
         proj.write_workflow(render(case, proj))
